@@ -141,7 +141,8 @@ def main():
                 meta["detected_now_for_property"] = {t: (meta["property"] in det and t in det[meta["property"]]) for t in ("quick", "thorough")}
             json.dump(meta, open(mp, "w"), indent=1)
             tgt = det.get(meta["property"], {}) if det else {}
-            print(sid, "target:", {t: v["rules"] for t, v in tgt.items()} or "MISSED", "| others:", sorted(set(det or {}) - {meta["property"]}))
+            print(sid, "target:", ("PATCH-DOES-NOT-APPLY " + err) if det is None else ({t: v["rules"] for t, v in tgt.items()} or "MISSED"),
+                  "| others:", sorted(set(det or {}) - {meta["property"]}))
 
 
 if __name__ == "__main__":
